@@ -181,4 +181,5 @@ def run(prog, rep, tier, cfg):
     X.accumulator_integrity('K12', 'running-totals', ['fil_actor_miner', 'fil_actor_verifreg'], 'running totals of amounts')
     X.no_dropped_results('K14', 'results-not-discarded', ['fil_actor_miner', 'fil_actor_verifreg'], 'no Result of a call is discarded')
     X.tolerated_failures('K15', 'tolerated-failures', ['fil_actor_miner', 'fil_actor_verifreg'], 'tolerated failures are the reviewed ones')
+    X.write_sites_preserved('K16', 'updates-present', 'fil_actor_miner', ['SectorOnChainInfo.verified_deal_weight', 'SectorOnChainInfo.flags', 'SectorOnChainInfo.expiration', 'SectorOnChainInfo.power_base_epoch'], 'state updates do not disappear')
 
